@@ -9,6 +9,7 @@
 from typing import NamedTuple
 
 from .dash_element import DashElement
+from .errors import ErrorSource, LineRange, ValidationChecks
 
 class SegmentEntry(NamedTuple):
     start: int | None
@@ -22,8 +23,12 @@ class SegmentTimeline(DashElement):
         self.duration = 0
         for idx, seg in enumerate(timeline):
             t = seg.get('t')
-            if not self.attrs.check_not_none(
-                    seg.get('d'), msg='S@d is mandatory', clause='5.3.9.6'):
+            if seg.get('d') is None:
+                # (located at the S element)
+                s_checks = ValidationChecks(
+                    ErrorSource.ATTRIBUTE, LineRange(seg.sourceline, seg.sourceline))
+                s_checks.add_error('S@d is mandatory', clause='5.3.9.6')
+                self.attrs.errors += s_checks.errors
                 continue
             duration = int(seg.get('d'), 10)
             if t is not None and start is not None:
